@@ -55,7 +55,7 @@ mod verif_l2_update {
         keep_commb_only(o, n);
     }
 
-    //@ob id=L2.update.dispatch flags=noassert props=C10,C11,C12,C05,C06,C09,C01 tier=quick kind=harness fns=plane/from_squitter.rs:Plane::update
+    //@ob id=L2.update.dispatch flags=noassert props=C10,C11,C12,C05,C06,C09,C01,C19 tier=quick kind=harness fns=plane/from_squitter.rs:Plane::update
     //@region Plane::update for every df value, -R on/off, every row: time stamp = receive time, last DF recorded, broadcast part always, extended-squitter part iff DF17/18, Comm-B part iff (-R or recorded CA > 3) and DF20/21; nothing else touched
     #[kani::proof]
     #[kani::unwind(34)]
@@ -129,7 +129,7 @@ mod verif_l2_update {
         keep_commb_only(o, n);
     }
 
-    //@ob id=L2.update.bcast.14 flags=noassert props=C05,C06,C11,C01 tier=quick kind=harness fns=plane/from_squitter/from_bcast.rs:update_from_bcast draw=frame14
+    //@ob id=L2.update.bcast.14 flags=noassert props=C05,C06,C11,C01,C19 tier=quick kind=harness fns=plane/from_squitter/from_bcast.rs:update_from_bcast draw=frame14
     //@region all 56-bit frames x every df <= 15 x every row: DF4 altitude, DF5 squawk, DF11 CA; everything else unchanged
     #[kani::proof]
     #[kani::unwind(34)]
@@ -145,7 +145,7 @@ mod verif_l2_update {
         kani::cover!(true, "reach_end");
     }
 
-    //@ob id=L2.update.bcast.28 flags=noassert props=C05,C06,C11,C01 tier=quick kind=harness fns=plane/from_squitter/from_bcast.rs:update_from_bcast draw=frame28
+    //@ob id=L2.update.bcast.28 flags=noassert props=C05,C06,C11,C01,C19 tier=quick kind=harness fns=plane/from_squitter/from_bcast.rs:update_from_bcast draw=frame28
     //@region all 112-bit frames x every df >= 16 x every row: DF20 altitude, DF21 squawk, DF17 CA (either), everything else unchanged
     #[kani::proof]
     #[kani::unwind(34)]
@@ -195,7 +195,7 @@ mod verif_l2_update {
         rec_arm(31, m, 0, 0)
     }
 
-    //@ob id=L2.update.ext.dispatch flags=noassert props=C07,C08,C09,C11,C01 tier=quick kind=harness fns=plane/from_squitter/from_ext.rs:update_from_ext draw=frame28
+    //@ob id=L2.update.ext.dispatch flags=noassert props=C07,C08,C09,C11,C01,C19 tier=quick kind=harness fns=plane/from_squitter/from_ext.rs:update_from_ext draw=frame28
     //@region update_from_ext for all 112-bit frames x every row: last type code recorded; exactly the handler of the frame's type code runs (1-4, 5-8, 9-18, 19, 20-22, 31; none otherwise) with this frame's type/subtype; nothing else touched
     #[kani::proof]
     #[kani::unwind(34)]
@@ -253,7 +253,7 @@ mod verif_l2_update {
         assert!(n.timestamp == o.timestamp && n.last_df == o.last_df, "clock fields untouched");
     }
 
-    //@ob id=L2.update.ext.tc1_4 flags=noassert props=C07,C11,C01 tier=quick kind=harness fns=plane/from_squitter/from_ext.rs:update_from_ext_1_4 draw=frame28
+    //@ob id=L2.update.ext.tc1_4 flags=noassert props=C07,C11,C01,C19 tier=quick kind=harness fns=plane/from_squitter/from_ext.rs:update_from_ext_1_4 draw=frame28
     //@region TC1-4 handler, all 112-bit frames x every (type code, category) x every row: callsign = decoded identification, category = (TC, CA); nothing else
     #[kani::proof]
     #[kani::unwind(34)]
@@ -320,7 +320,7 @@ mod verif_l2_update {
         kani::cover!(true, "reach_end");
     }
 
-    //@ob id=L2.update.ext.tc5_8 flags=noassert props=C08,C11,C01 tier=quick kind=harness fns=plane/from_squitter/from_ext.rs:update_from_ext_5_8,plane/from_squitter/from_ext.rs:update_cpr,plane/update_position.rs:update_position draw=frame28
+    //@ob id=L2.update.ext.tc5_8 flags=noassert props=C08,C11,C01,C19 tier=quick kind=harness fns=plane/from_squitter/from_ext.rs:update_from_ext_5_8,plane/from_squitter/from_ext.rs:update_cpr,plane/update_position.rs:update_position draw=frame28
     //@region TC5-8 handler, all frames x every row incl. symbolic CPR slots: surface fields set, altitude blanked, CPR slot stored and stamped with the row time stamp, then a position update is requested for (type code, parity)
     #[kani::proof]
     #[kani::unwind(34)]
@@ -329,7 +329,7 @@ mod verif_l2_update {
         position_arm(true);
     }
 
-    //@ob id=L2.update.ext.tc9_18 flags=noassert props=C05,C08,C11,C01 tier=quick kind=harness fns=plane/from_squitter/from_ext.rs:update_from_ext_9_18,plane/from_squitter/from_ext.rs:update_cpr,plane/update_position.rs:update_position draw=frame28
+    //@ob id=L2.update.ext.tc9_18 flags=noassert props=C05,C08,C11,C01,C19 tier=quick kind=harness fns=plane/from_squitter/from_ext.rs:update_from_ext_9_18,plane/from_squitter/from_ext.rs:update_cpr,plane/update_position.rs:update_position draw=frame28
     //@region TC9-18 handler, all frames x every row incl. symbolic CPR slots: altitude, surveillance status, CPR slot stored and stamped with the row time stamp, then a position update is requested for (type code, parity)
     #[kani::proof]
     #[kani::unwind(34)]
@@ -338,7 +338,7 @@ mod verif_l2_update {
         position_arm(false);
     }
 
-    //@ob id=L2.update.ext.tc19 flags=noassert props=C09,C11,C01 tier=quick kind=harness fns=plane/from_squitter/from_ext.rs:update_from_ext_19 draw=frame28
+    //@ob id=L2.update.ext.tc19 flags=noassert props=C09,C11,C01,C19 tier=quick kind=harness fns=plane/from_squitter/from_ext.rs:update_from_ext_19 draw=frame28
     //@region TC19 handler, all frames x every subtype x every row: vertical rate; subtype 1/2 track + ground speed from this frame (x4 unit for subtype 2); subtype 3/4 heading; GNSS altitude = barometric + delta
     #[kani::proof]
     #[kani::unwind(34)]
@@ -386,7 +386,7 @@ mod verif_l2_update {
         kani::cover!(true, "reach_end");
     }
 
-    //@ob id=L2.update.ext.tc20_31 flags=noassert props=C11,C01 tier=quick kind=harness fns=plane/from_squitter/from_ext.rs:update_from_ext_20_22,plane/from_squitter/from_ext.rs:update_from_ext_31 draw=frame28
+    //@ob id=L2.update.ext.tc20_31 flags=noassert props=C11,C01,C19 tier=quick kind=harness fns=plane/from_squitter/from_ext.rs:update_from_ext_20_22,plane/from_squitter/from_ext.rs:update_from_ext_31 draw=frame28
     //@region TC20-22 and TC31 handlers, all frames x every row: GNSS altitude + surveillance status; ADS-B version; nothing else
     #[kani::proof]
     #[kani::unwind(34)]
